@@ -41,7 +41,7 @@ type caseSpec struct {
 }
 
 // kinds the builder executes as part of the state (a careless verifier would execute them too) ...
-var execKinds = []string{"fresh", "fresh", "fromPool", "dupChain", "badSig", "poolBadSig", "poolSwapPubkey", "txHeightIn"}
+var execKinds = []string{"fresh", "fresh", "fromPool", "dupChain", "badSig", "poolBadSig", "poolSwapPubkey", "txHeightIn", "group"}
 
 // ... and kinds the executor itself refuses (inserted into the body after the state root was computed)
 var insertKinds = []string{"dupSame", "expiredHeight", "expiredTime", "wrongChain", "lowFee", "txHeightOut"}
@@ -78,6 +78,9 @@ func setup() {
 // independent re-statement of the expiry rule (types/tx.go documents: 0 never expires; <= 1e9 is a height and the tx
 // is valid while expire > height; > 2^62 is a TxHeight valid for [txHeight-200, txHeight+600]; otherwise a unix time
 // valid while expire > blocktime).
+// refLow/refHigh: the configured TxHeight window (blockchain.lowAllowPackHeight / highAllowPackHeight; defaults 200/600).
+var refLow, refHigh int64 = 200, 600
+
 func expiredRef(expire, height, blocktime int64) bool {
 	switch {
 	case expire == 0:
@@ -86,7 +89,7 @@ func expiredRef(expire, height, blocktime int64) bool {
 		return expire <= height
 	case expire > 1<<62:
 		th := expire - 1<<62
-		return !(th-200 <= height && height <= th+600)
+		return !(th-refLow <= height && height <= th+refHigh)
 	default:
 		return expire <= blocktime
 	}
@@ -94,6 +97,7 @@ func expiredRef(expire, height, blocktime int64) bool {
 
 type world struct {
 	f     *chainfix.Node
+	b     *chainfix.Builder // producer; nil = the shared default-configuration builder
 	cfg   *types.Chain33Config
 	chain []*types.Block // follower's best chain as the harness believes it (index = height-1)
 	pool  []*types.Transaction
@@ -101,10 +105,43 @@ type world struct {
 
 func (w *world) tip() *types.Block { return w.chain[len(w.chain)-1] }
 
+// sender: a funded key -- the trunk funds every key; a world without trunk (own producer) has only the genesis key
+func (w *world) sender() int {
+	if w.b != nil {
+		return 1
+	}
+	return 1 + int(nonce)%2*2
+}
+
 func (w *world) freshTx(to int) *types.Transaction {
 	nonce++
 	keys := chainfix.Keys()
-	return chainfix.TransferTx(w.cfg, keys[1+int(nonce)%2*2], chainfix.Addr(keys[to%len(keys)]), 1e8, nonce)
+	return chainfix.TransferTx(w.cfg, keys[w.sender()], chainfix.Addr(keys[to%len(keys)]), 1e8, nonce)
+}
+
+// group builds a 2..3 member transaction group the way wallets do (types.CreateTxGroup, every member signed).
+func (w *world) group(n int, to int) []*types.Transaction {
+	keys := chainfix.Keys()
+	var txs []*types.Transaction
+	var signers []int
+	for i := 0; i < n; i++ {
+		nonce++
+		k := w.sender()
+		tx := chainfix.TransferTx(w.cfg, keys[k], chainfix.Addr(keys[(to+i)%len(keys)]), 1e8, nonce)
+		tx.Signature = nil
+		txs = append(txs, tx)
+		signers = append(signers, k)
+	}
+	g, err := types.CreateTxGroup(txs, w.cfg.GetMinTxFeeRate())
+	if err != nil {
+		lib.Inconclusive("CreateTxGroup: %v", err)
+	}
+	for i := range txs {
+		if err := g.SignN(i, types.SECP256K1, keys[signers[i]]); err != nil {
+			lib.Inconclusive("SignN: %v", err)
+		}
+	}
+	return g.Txs
 }
 
 // resign replaces signature material without touching the signed content.
@@ -115,10 +152,18 @@ func cloneTx(tx *types.Transaction) *types.Transaction { return types.Clone(tx).
 func (w *world) makeBlock(parent *types.Block, specs []txSpec, bits uint32) (*types.Block, bool, []string) {
 	cfg := w.cfg
 	keys := chainfix.Keys()
-	var exec, insert []*types.Transaction
+	// a block body is a list of units: single transactions and whole groups (groups are stored expanded, contiguous)
+	type unit struct {
+		txs     []*types.Transaction
+		illegal bool // the executor itself refuses it (so the producer's own executor will drop it)
+	}
+	var units []unit
+	type dupReq struct{ src, pos int }
+	var dups []dupReq
 	var kinds []string
 	invalid := false
 	height := parent.Height + 1
+	single := func(tx *types.Transaction, illegal bool) { units = append(units, unit{[]*types.Transaction{tx}, illegal}) }
 	onChain := func() []*types.Transaction {
 		var all []*types.Transaction
 		for _, b := range w.chain {
@@ -131,20 +176,44 @@ func (w *world) makeBlock(parent *types.Block, specs []txSpec, bits uint32) (*ty
 	for _, s := range specs {
 		switch s.Kind {
 		case "fresh":
-			exec = append(exec, w.freshTx(s.To))
+			single(w.freshTx(s.To), false)
+		case "group":
+			units = append(units, unit{w.group(2+s.Ref%2, s.To), false})
 		case "fromPool":
 			if len(w.pool) == 0 {
 				continue
 			}
-			exec = append(exec, cloneTx(w.pool[s.Ref%len(w.pool)]))
+			single(cloneTx(w.pool[s.Ref%len(w.pool)]), false)
 		case "dupChain":
-			all := onChain()
-			exec = append(exec, cloneTx(all[s.Ref%len(all)]))
+			// a unit (single transaction or whole group) that is already on this branch
+			var us [][]*types.Transaction
+			for _, b := range w.chain {
+				if b.Height > parent.Height {
+					continue
+				}
+				for i := 0; i < len(b.Txs); i++ {
+					n := int(b.Txs[i].GroupCount)
+					if n < 2 || i+n > len(b.Txs) {
+						n = 1
+					}
+					us = append(us, b.Txs[i:i+n])
+					i += n - 1
+				}
+			}
+			if len(us) == 0 {
+				continue
+			}
+			u := unit{}
+			for _, tx := range us[s.Ref%len(us)] {
+				u.txs = append(u.txs, cloneTx(tx))
+				u.illegal = u.illegal || expiredRef(tx.Expire, height, parent.BlockTime+10)
+			}
+			units = append(units, u)
 			invalid = true
 		case "badSig":
 			tx := w.freshTx(s.To)
 			tx.Signature.Signature[len(tx.Signature.Signature)-2] ^= 0x10
-			exec = append(exec, tx)
+			single(tx, false)
 			invalid = true
 		case "poolBadSig":
 			if len(w.pool) == 0 {
@@ -152,7 +221,7 @@ func (w *world) makeBlock(parent *types.Block, specs []txSpec, bits uint32) (*ty
 			}
 			tx := cloneTx(w.pool[s.Ref%len(w.pool)])
 			tx.Signature.Signature[len(tx.Signature.Signature)-2] ^= 0x10
-			exec = append(exec, tx)
+			single(tx, false)
 			invalid = true
 		case "poolSwapPubkey":
 			if len(w.pool) == 0 {
@@ -166,15 +235,36 @@ func (w *world) makeBlock(parent *types.Block, specs []txSpec, bits uint32) (*ty
 				victim = keys[3].PubKey().Bytes()
 			}
 			tx.Signature.Pubkey = victim
-			exec = append(exec, tx)
+			single(tx, false)
 			invalid = true
 		case "txHeightIn":
 			tx := w.freshTx(s.To)
-			tx.Expire = 1<<62 + height + int64(s.Ref%150)
+			// valid while txHeight-low <= height <= txHeight+high
+			lo := height - refHigh
+			if lo < 1 {
+				lo = 1
+			}
+			tx.Expire = 1<<62 + lo + int64(s.Ref)%(height+refLow-lo+1)
 			tx.Sign(types.SECP256K1, keys[1])
-			exec = append(exec, tx)
+			single(tx, false)
+		case "replayTxHeight":
+			// a transaction with a TxHeight expiry that is already on this branch: a replay while its window is open, and
+			// expired afterwards -- never acceptable
+			var cands []*types.Transaction
+			for _, tx := range onChain() {
+				if tx.Expire > 1<<62 {
+					cands = append(cands, tx)
+				}
+			}
+			if len(cands) == 0 {
+				continue
+			}
+			tx := cloneTx(pickReplay(cands, s))
+			units = append(units, unit{[]*types.Transaction{tx}, expiredRef(tx.Expire, height, parent.BlockTime+10)})
+			invalid = true
 		case "dupSame":
-			insert = append(insert, nil) // resolved below: duplicate of the first executed tx
+			// resolved below: a copy of an earlier unit's transaction, placed at a drawn unit boundary
+			dups = append(dups, dupReq{s.Ref, s.To})
 			invalid = true
 		case "expiredHeight":
 			tx := w.freshTx(s.To)
@@ -183,56 +273,70 @@ func (w *world) makeBlock(parent *types.Block, specs []txSpec, bits uint32) (*ty
 				tx.Expire = 1
 			}
 			tx.Sign(types.SECP256K1, keys[1])
-			insert = append(insert, tx)
-			exec = append(exec, tx)
+			single(tx, true)
 			invalid = true
 		case "expiredTime":
 			tx := w.freshTx(s.To)
 			tx.Expire = parent.BlockTime - int64(s.Ref%100) // unix time not after the block time
 			tx.Sign(types.SECP256K1, keys[1])
-			insert = append(insert, tx)
-			exec = append(exec, tx)
+			single(tx, true)
 			invalid = true
 		case "wrongChain":
 			tx := w.freshTx(s.To)
 			tx.ChainID = cfg.GetChainID() + 1
 			tx.Sign(types.SECP256K1, keys[1])
-			insert = append(insert, tx)
-			exec = append(exec, tx)
+			single(tx, true)
 			invalid = true
 		case "lowFee":
 			tx := w.freshTx(s.To)
 			tx.Fee = int64(s.Ref % 1000)
 			tx.Sign(types.SECP256K1, keys[1])
-			insert = append(insert, tx)
-			exec = append(exec, tx)
+			single(tx, true)
 			invalid = true
 		case "txHeightOut":
 			tx := w.freshTx(s.To)
-			tx.Expire = 1<<62 + height + 201 + int64(s.Ref%500) // window starts above this height
+			if s.Ref%2 == 0 || height-refHigh-1 <= 0 {
+				tx.Expire = 1<<62 + height + refLow + 1 + int64(s.Ref%5) // window starts above this height
+			} else {
+				tx.Expire = 1<<62 + height - refHigh - 1 // window ended just below this height
+			}
 			tx.Sign(types.SECP256K1, keys[1])
-			insert = append(insert, tx)
-			exec = append(exec, tx)
+			single(tx, true)
 			invalid = true
 		}
 		kinds = append(kinds, s.Kind)
 	}
 	keepable := 0
-	for _, tx := range exec {
-		own := false
-		for _, ins := range insert {
-			if ins == tx {
-				own = true
-			}
-		}
-		if !own {
+	for _, u := range units {
+		if !u.illegal {
 			keepable++
 		}
 	}
 	if keepable == 0 {
 		// at least one transaction the executor will keep, otherwise the producer cannot build a block at all
-		exec = append(exec, w.freshTx(0))
+		single(w.freshTx(0), false)
 		kinds = append(kinds, "fresh")
+	}
+	for _, d := range dups {
+		// source: a transaction the executor would keep (a single, or one member of a group -- then the whole group is
+		// copied so that the copy is well formed); position: any unit boundary, in particular directly behind a group
+		var legal []int
+		for i, u := range units {
+			if !u.illegal {
+				legal = append(legal, i)
+			}
+		}
+		src := units[legal[d.src%len(legal)]]
+		cp := unit{}
+		for _, tx := range src.txs {
+			cp.txs = append(cp.txs, cloneTx(tx))
+		}
+		pos := d.pos % (len(units) + 1)
+		units = append(units[:pos], append([]unit{cp}, units[pos:]...)...)
+	}
+	var want []*types.Transaction
+	for _, u := range units {
+		want = append(want, u.txs...)
 	}
 	// in-block duplicates by accident (same pool tx picked twice), and pooled transactions that are already on this
 	// branch (the harness keeps them in its pool list after inclusion), make the block invalid too
@@ -240,44 +344,37 @@ func (w *world) makeBlock(parent *types.Block, specs []txSpec, bits uint32) (*ty
 	for _, tx := range onChain() {
 		seen[string(tx.Hash())] = true
 	}
-	for _, tx := range exec {
+	for _, tx := range want {
 		if seen[string(tx.Hash())] {
 			invalid = true
 		}
 		seen[string(tx.Hash())] = true
 	}
-	blk, err := builder.Child(parent, exec, bits, parent.BlockTime+10)
-	if err != nil {
-		lib.Inconclusive("builder: %v", err)
+	// The producer offers the whole intended body to its own executor: a verifier whose checks are broken would execute
+	// all of it, and then the state root must account for that. Whatever the producer's executor dropped (duplicates,
+	// transactions it refuses) is put back afterwards in the intended order, so that an intact verifier meets it and
+	// must reject the block.
+	bl := builder
+	if w.b != nil {
+		bl = w.b
 	}
-	if len(insert) > 0 {
-		// The producer first offers these transactions to its own executor (above): a verifier whose checks are
-		// broken would execute them, and then the state root must account for them. Whatever the executor dropped
-		// is put back into the body afterwards, so that an intact verifier meets it and must reject the block.
-		kept := map[string]bool{}
-		for _, tx := range blk.Txs {
-			kept[string(tx.FullHash())] = true
+	blk, err := bl.Child(parent, want, bits, parent.BlockTime+10)
+	if err != nil {
+		lib.Inconclusive("builder: %v (height %d, units %v, window %d/%d)", err, height, kinds, refLow, refHigh)
+	}
+	if len(blk.Txs) != len(want) {
+		blk.Txs = nil
+		for _, tx := range want {
+			blk.Txs = append(blk.Txs, cloneTx(tx))
 		}
-		changed := false
-		for _, tx := range insert {
-			if tx == nil {
-				tx = cloneTx(blk.Txs[0])
-			} else if kept[string(tx.FullHash())] {
-				continue
-			}
-			blk.Txs = append(blk.Txs, tx)
-			changed = true
-		}
-		if changed {
-			blk.Txs = types.TransactionSort(blk.Txs)
-			blk.TxHash = merkle.CalcMerkleRoot(cfg, blk.Height, blk.Txs)
-		}
+		blk.Txs = types.TransactionSort(blk.Txs)
+		blk.TxHash = merkle.CalcMerkleRoot(cfg, blk.Height, blk.Txs)
 	}
 	return blk, invalid, kinds
 }
 
 // scan is the oracle: every transaction of every block of the follower's best chain.
-func (w *world) scan(t lib.TB, test string, c caseSpec, upto int) (toleratedKnown bool) {
+func (w *world) scan(t lib.TB, test string, c interface{}, upto int) (toleratedKnown bool) {
 	h, _ := w.f.Tip()
 	seen := map[string]int64{}
 	minFee := w.cfg.GetMinTxFeeRate()
@@ -305,8 +402,21 @@ func (w *world) scan(t lib.TB, test string, c caseSpec, upto int) (toleratedKnow
 			if tx.ChainID != w.cfg.GetChainID() {
 				lib.Violation(t, prop, test, c, "after step %d: block %d tx %d has chain id %d", upto, x, i, tx.ChainID)
 			}
-			if minFee > 0 && tx.Fee < int64(types.Size(tx)/1000+1)*minFee {
-				lib.Violation(t, prop, test, c, "after step %d: block %d tx %d pays fee %d below the minimum", upto, x, i, tx.Fee)
+			// fee rule (types/tx.go): a single transaction pays at least the size-based minimum; in a group the head pays
+			// at least the sum of the members' minimums and the other members carry fee 0
+			if minFee > 0 {
+				need := int64(types.Size(tx)/1000+1) * minFee
+				if n := int(tx.GroupCount); n >= 2 {
+					need = 0
+					if bytes.Equal(tx.Header, tx.Hash()) && i+n <= len(d.Block.Txs) {
+						for _, m := range d.Block.Txs[i : i+n] {
+							need += int64(types.Size(m)/1000+1) * minFee
+						}
+					}
+				}
+				if tx.Fee < need {
+					lib.Violation(t, prop, test, c, "after step %d: block %d tx %d pays fee %d below the minimum %d", upto, x, i, tx.Fee, need)
+				}
 			}
 		}
 	}
@@ -492,6 +602,133 @@ func TestPropChainValidity(t *testing.T) {
 			lib.ExcludedKnown(knownPoolSig)
 		}
 		if o.adversarial > 0 || o.repooled > 0 {
+			lib.NonTrivialCase(c)
+		}
+	})
+}
+
+// ---- TxHeight window under generated node configuration ----
+
+// pickReplay: two times out of three one of the two oldest candidates (so that replays reach the end of a window), else any
+func pickReplay(cands []*types.Transaction, s txSpec) *types.Transaction {
+	if s.To%3 != 0 && len(cands) > 2 {
+		return cands[s.Ref%2]
+	}
+	return cands[s.Ref%len(cands)]
+}
+
+type winCase struct {
+	NoneRollback bool       `json:"noneRollback"` // consensus.noneRollback (chains whose consensus never reorganises)
+	High         int64      `json:"high"`         // blockchain.highAllowPackHeight
+	Low          int64      `json:"low"`          // blockchain.lowAllowPackHeight
+	Blocks       [][]txSpec `json:"blocks"`
+}
+
+func genWinCase(t *rapid.T) winCase {
+	c := winCase{NoneRollback: rapid.Bool().Draw(t, "noneRollback"), High: int64(rapid.IntRange(3, 6).Draw(t, "high")), Low: int64(rapid.IntRange(2, 4).Draw(t, "low"))}
+	n := int(c.High+c.Low) + rapid.IntRange(2, 6).Draw(t, "extra")
+	for i := 0; i < n; i++ {
+		var specs []txSpec
+		k := rapid.IntRange(1, 3).Draw(t, "ntx")
+		for j := 0; j < k; j++ {
+			kind := rapid.SampledFrom([]string{"fresh", "txHeightIn", "txHeightIn", "replayTxHeight", "replayTxHeight", "txHeightOut", "dupChain", "group", "dupSame"}).Draw(t, "kind")
+			specs = append(specs, txSpec{Kind: kind, Ref: rapid.IntRange(0, 999).Draw(t, "ref"), To: rapid.IntRange(0, 5).Draw(t, "to")})
+		}
+		c.Blocks = append(c.Blocks, specs)
+	}
+	return c
+}
+
+func runWinCase(t lib.TB, test string, c winCase) (replayInWindow, replayAtEdge, replayAfter, adversarial, rejected int) {
+	oldLow, oldHigh := refLow, refHigh
+	gLow, gHigh := types.LowAllowPackHeight, types.HighAllowPackHeight
+	defer func() {
+		refLow, refHigh = oldLow, oldHigh
+		types.LowAllowPackHeight, types.HighAllowPackHeight = gLow, gHigh
+	}()
+	refLow, refHigh = c.Low, c.High
+	opt := func(cfg *types.Chain33Config) {
+		m := cfg.GetModuleConfig()
+		m.BlockChain.HighAllowPackHeight, m.BlockChain.LowAllowPackHeight = c.High, c.Low
+		m.Consensus.NoneRollback = c.NoneRollback
+	}
+	w := &world{b: chainfix.NewBuilder(opt)}
+	defer w.b.N.Close()
+	w.f = chainfix.NewNode(opt)
+	defer w.f.Close()
+	w.cfg = w.f.Cfg
+	if types.HighAllowPackHeight != c.High || types.LowAllowPackHeight != c.Low {
+		lib.Inconclusive("node did not take the configured TxHeight window (%d/%d)", types.LowAllowPackHeight, types.HighAllowPackHeight)
+	}
+	parent := w.f.Genesis()
+	for bi, specs := range c.Blocks {
+		// classification: where in its window does a replayed transaction stand at this height?
+		height := parent.Height + 1
+		for _, s := range specs {
+			if s.Kind != "replayTxHeight" {
+				continue
+			}
+			var cands []*types.Transaction
+			for _, b := range w.chain {
+				for _, tx := range b.Txs {
+					if tx.Expire > 1<<62 {
+						cands = append(cands, tx)
+					}
+				}
+			}
+			if len(cands) == 0 {
+				continue
+			}
+			th := pickReplay(cands, s).Expire - 1<<62
+			switch {
+			case height == th+c.High:
+				replayAtEdge++
+			case height > th+c.High:
+				replayAfter++
+			default:
+				replayInWindow++
+			}
+		}
+		b, invalid, kinds := w.makeBlock(parent, specs, 0x1f00ffff)
+		_, err := w.f.GetBlockChain().ProcAddBlockMsg(bi%2 == 0, &types.BlockDetail{Block: types.Clone(b).(*types.Block)}, fmt.Sprintf("peer%d", bi))
+		_, tip := w.f.Tip()
+		accepted := bytes.Equal(tip, b.Hash(w.cfg))
+		if invalid {
+			adversarial++
+			if !accepted {
+				rejected++
+			}
+		} else if !accepted {
+			lib.Violation(t, prop, test, c, "block %d: an honest valid block %v was not accepted as the new tip (err=%v)", bi, kinds, err)
+		}
+		if accepted {
+			w.chain = append(w.chain, b)
+			parent = b
+		}
+		w.scan(t, test, map[string]interface{}{"case": c}, bi)
+	}
+	return
+}
+
+// TestPropTxHeightWindow: the replay / expiry clauses under generated node configuration -- the TxHeight window
+// (blockchain.lowAllowPackHeight / highAllowPackHeight, set small so that a short chain crosses both ends of a
+// transaction's window) and consensus.noneRollback. Transactions with a TxHeight expiry are de-duplicated through the
+// in-memory window cache only, so replays of them are offered at every height up to and beyond the end of the window.
+func TestPropTxHeightWindow(t *testing.T) {
+	defer lib.Flush()
+	rapid.Check(t, func(t *rapid.T) {
+		c := genWinCase(t)
+		lib.Eval()
+		in, edge, after, adv, rej := runWinCase(t, "TestPropTxHeightWindow", c)
+		lib.ClassN("replay_inside_window", in)
+		lib.ClassN("replay_at_last_height_of_window", edge)
+		lib.ClassN("replay_after_window", after)
+		lib.ClassN("adversarial_block", adv)
+		lib.ClassN("adversarial_block_rejected", rej)
+		if c.NoneRollback {
+			lib.Class("noneRollback")
+		}
+		if in+edge+after > 0 {
 			lib.NonTrivialCase(c)
 		}
 	})
